@@ -511,7 +511,8 @@ def r8_visitor(ctx, F, cb):
     ok = False
     if pv.kind == 'call':
         pc = b.call_at(pv.key)
-        if pc is not None and pc.short.endswith('reconstruct_path'):
+        import roles
+        if pc is not None and roles.is_reconstruct_path_call(F, pc):
             ok = cb.job_field(b.val(pc.args[2])) == 1 and is_arg(b.val(pc.args[1]), cb.p_generated)
         elif pc is not None and pc.is_('Path::from_fingerprints'):
             v = b.trace(b.val(pc.args[1]), ('From::from', 'Clone::clone', 'Into::into'))
